@@ -6,6 +6,20 @@ BASELINE = ("cd /repo && cargo nextest run --workspace --no-fail-fast --test-thr
             "|| cargo test --workspace --no-fail-fast --offline")
 
 CHECKS = {
+    "C05": dict(
+        category="fault_enumeration",
+        text=("Short chains of the three NUTS presets (Euclidean and ExactNormal) and the two Euclidean-adapted MCLMC presets are run "
+              "fault-free, then again with a fault (recoverable / unrecoverable error, NaN / +inf / -inf log-density, NaN / inf gradient) "
+              "injected at evaluation k. For fixed runs every k and every kind is enumerated; generated runs add random k and pairs of "
+              "faults. Oracle: a trajectory fault makes that draw divergent (Progress and stats, with message) and the returned position is "
+              "the previous draw or a state integrated before k; a search-trial fault is discarded; an unrecoverable fault makes exactly the "
+              "call that issued evaluation k return Err; no panic; all later draws satisfy the C03 draw predicates."),
+        design_ref="DESIGN.md section 3, C05",
+        note=("A fault while a start point is evaluated (set_position, or the base point of the re-run step-size search) may give Ok or Err - "
+              "the property leaves it open; only panics / non-finite positions are judged there. For two faults only the generic invariants "
+              "are asserted. The quick sweep enumerates every k < 250 and every third k beyond."),
+        technique="fault injection at every density-evaluation index of generated runs (enumerated and proptest-generated), classified by a fault-free baseline",
+    ),
     "C03": dict(
         category="exploration",
         text=("Public-API part: chains of all six presets are run on generated densities (including walls that cause divergences) with a "
